@@ -8,6 +8,7 @@ import (
 	"github.com/ethereum/go-ethereum/common"
 	"github.com/ethereum/go-ethereum/core"
 	"github.com/ethereum/go-ethereum/core/vm"
+	"github.com/ethereum/go-ethereum/crypto"
 	"github.com/ethereum/go-ethereum/eth/tracers/logger"
 	"github.com/ethereum/go-ethereum/params"
 )
@@ -30,7 +31,15 @@ func NewTracer(tracer string, msg core.Message, cfg *params.ChainConfig, height 
 	switch tracer {
 	case TracerAccessList:
 		preCompiles := vm.DefaultActivePrecompiles(cfg.Rules(big.NewInt(height), cfg.MergeNetsplitBlock != nil))
-		return logger.NewAccessListTracer(msg.AccessList(), msg.From(), *msg.To(), preCompiles)
+		// a contract creation has no recipient: the access list excludes the address the contract is created at
+		// (as go-ethereum's own access-list creation does)
+		var to common.Address
+		if msg.To() != nil {
+			to = *msg.To()
+		} else {
+			to = crypto.CreateAddress(msg.From(), msg.Nonce())
+		}
+		return logger.NewAccessListTracer(msg.AccessList(), msg.From(), to, preCompiles)
 	case TracerJSON:
 		return logger.NewJSONLogger(logCfg, os.Stderr)
 	case TracerMarkdown:
